@@ -225,45 +225,6 @@ class program:
 
 
 
-    def _run_stdout_multi_core(self):
-
-        header = self.header()
-
-        for line in header:
-
-            sys.stdout.write(line + '\n')
-
-        sys.stdout.flush()
-
-        manager = mp.Manager()
-
-        queue = manager.Queue()
-
-        pool = mp.Pool(self.n_cores + 1)
-
-        _ = pool.apply_async(self._writer, (queue,))
-
-        loci = list(self.loci())
-
-        blocks = np.array_split(loci, self.n_cores)
-
-        jobs = []
-
-        for block in blocks:
-
-            job = pool.apply_async(self._worker, (block, queue))
-
-            jobs.append(job)
-
-        for job in jobs:
-
-            job.get()
-
-        queue.put(KILL_SIGNAL)
-
-        pool.close()
-
-        pool.join()
 
 
 
@@ -400,3 +361,47 @@ class program:
             data.infodata[INFO.SNVDP] = _SNVDP
 
         return data
+
+
+class program:
+    def _run_stdout_multi_core(self):
+
+        header = self.header()
+
+        for line in header:
+
+            sys.stdout.write(line + '\n')
+
+        sys.stdout.flush()
+
+        manager = mp.Manager()
+
+        queue = manager.Queue()
+
+        pool = mp.Pool(self.n_cores + 1)
+
+        writer = pool.apply_async(self._writer, (queue,))
+
+        loci = list(self.loci())
+
+        blocks = np.array_split(loci, self.n_cores)
+
+        jobs = []
+
+        for block in blocks:
+
+            job = pool.apply_async(self._worker, (block, queue))
+
+            jobs.append(job)
+
+        for job in jobs:
+
+            job.get()
+
+        queue.put(KILL_SIGNAL)
+
+        writer.get()
+
+        pool.close()
+
+        pool.join()
